@@ -51,8 +51,8 @@ PROPS = {
         "modelled": CORE_MODELLED,
     },
     "C19": {
-        "quick": [("gc", 120, 100), ("alloc", 80, 100), ("limits", 30, 60), ("slice", 60, 30), ("merge", 60, 0)],
-        "thorough": [("gc", 1500, 300), ("alloc", 1000, 300), ("limits", 300, 150), ("cycle", 56, 200), ("slice", 1500, 50), ("merge", 2000, 0)],
+        "quick": [("gc", 120, 100), ("alloc", 80, 100), ("limits", 30, 60), ("slice", 60, 30), ("merge", 60, 0), ("mergebroken", 60, 0), ("script", 40, 12)],
+        "thorough": [("gc", 1500, 300), ("alloc", 1000, 300), ("limits", 300, 150), ("cycle", 56, 200), ("slice", 1500, 50), ("merge", 2000, 0), ("mergebroken", 2000, 0), ("script", 1000, 16)],
         "rule": "every history (core calls, and slices / merges followed by reads that reveal the grouping of what they built) is executed under its own configuration, under three larger configurations (N up to 16, capacity up to 256) and a second time in a fresh process (hash containers are seeded per process and per instance); all observation traces must be identical; non-trivial = at least one next_id or collection",
         "nontrivial": "any",
         "modelled": CORE_MODELLED,
